@@ -688,10 +688,39 @@ cast_string_to_number(const char *str)
 {
     long double num;
     char *ptr;
+    const char *start, *end;
+    ly_bool digits = 0;
+
+    /* XPath 1.0 sec. 4.4: optional whitespace, optional '-', Number (Digits ('.' Digits?)? | '.' Digits), optional whitespace */
+    while (is_xmlws(*str)) {
+        ++str;
+    }
+    start = str;
+    if (*str == '-') {
+        ++str;
+    }
+    while (isdigit((unsigned char)*str)) {
+        ++str;
+        digits = 1;
+    }
+    if (*str == '.') {
+        ++str;
+        while (isdigit((unsigned char)*str)) {
+            ++str;
+            digits = 1;
+        }
+    }
+    end = str;
+    while (is_xmlws(*str)) {
+        ++str;
+    }
+    if (*str || !digits) {
+        return NAN;
+    }
 
     errno = 0;
-    num = strtold(str, &ptr);
-    if (errno || *ptr || (ptr == str)) {
+    num = strtold(start, &ptr);
+    if (errno || (ptr != end)) {
         num = NAN;
     }
     return num;
